@@ -20,6 +20,8 @@ for name in sorted(res):
     elif name.startswith("revert:"):
         what = kf.get(name[7:], {}).get("what", "")[:170]
     caught = [p for p, c in r.get("checks", {}).items() if c["rc"] == 1]
+    if name.startswith("seeded/") and os.path.exists(os.path.join(HERE, name, "meta.json")) and json.load(open(os.path.join(HERE, name, "meta.json"))).get("obsolete"):
+        caught = ["(obsolete on the current tree, see meta.json)"] + caught
     other = [f"{p}:rc{c['rc']}" for p, c in r.get("checks", {}).items() if c["rc"] != 1]
     suite = r.get("suite")
     rows.append(f"| `{name}` | {'pass' if suite and suite['rc'] == 0 else ('FAILS' if suite else 'n/a')} | "
